@@ -241,6 +241,9 @@ def expected_wire(tr, side):
                 else:
                     item = {'type': 'ERROR'}
                 cls = 'pub'
+            elif ev in ('handler_raises', 'hfut_fail'):
+                item = {'type': 'ERROR'}  # a request-response handler that raised / whose future failed answers with an ERROR
+                cls = 'pub'
             elif ev == 'gen_exhausted':
                 src = spec.get('src') if e['dir'] == 'resp' else spec.get('rsrc')
                 if src and src.get('end') != 'flag':
